@@ -335,6 +335,9 @@ impl<'a> PlanBuilder<'a> {
 
         let mut output_plan = Vec::with_capacity(self.plan.len());
 
+        // Operators that have already been added to `output_plan`.
+        let mut scheduled: FxHashSet<NodeId> = FxHashSet::default();
+
         // Initialize frontier with all operators that can be executed
         // from initially-available values.
         let mut frontier: Vec<(NodeId, &OperatorNode)> = Vec::new();
@@ -362,6 +365,7 @@ impl<'a> PlanBuilder<'a> {
                 .position(|(_id, op)| op.operator().in_place_inputs().is_empty())
                 .unwrap_or(0);
             let (next_op_id, op_node) = frontier.remove(op_pos);
+            scheduled.insert(next_op_id);
             output_plan.push(next_op_id);
 
             // Mark the operator's outputs as computed.
@@ -377,6 +381,13 @@ impl<'a> PlanBuilder<'a> {
                     continue;
                 };
                 for (candidate_op_id, candidate_op) in deps {
+                    // Each operator runs once. Without this check an operator
+                    // whose output is already available at the start (eg. a
+                    // malformed graph where it is also a graph input) would
+                    // be re-added forever.
+                    if scheduled.contains(candidate_op_id) {
+                        continue;
+                    }
                     if frontier.iter().any(|(op_id, _)| op_id == candidate_op_id) {
                         continue;
                     }
